@@ -73,7 +73,7 @@ class IOWorld(Machine):
             "ffmpeg (in-process fake that overwrites its output path like `ffmpeg -y`)"]
     ASSUMPTIONS = [".pcx left out (Pillow's own PCX codec cannot re-read some tiny images it wrote)",
                    "the check-then-open window of _export and partial files after a failed overwrite=True export are not judged",
-                   "a swallowed write error is counted, not declared a violation (the statement does not quantify over faults)",
+                   "an export that reports success although an error was injected into it is judged like any successful export: what it wrote must read back (an error that is swallowed after the data is safe, e.g. on close, changes nothing)",
                    "under an injected fault: the faulted operation may fail and leave its own path dirty; it may never "
                    "damage a refused path or any other path, and un-faulted operations must stay exact"]
     REQUIRED_PROBES = ("refused_ljson", "refused_pts", "refused_pickle", "refused_pickle_gz", "refused_image", "refused_video",
@@ -505,17 +505,19 @@ class IOWorld(Machine):
                 if state[0] == "dirty":
                     ctx.probe("refused_dirty")
             return [rel]
-        if fired:
+        if fired and exc is not None:
             # relaxed: the faulted export may fail; its own path is dirty (content unknown)
-            if exc is None:
-                ctx.probe("swallowed_fault_%s_%s" % (label, fired[0]["kind"]))
-            elif not isinstance(exc, OSError):
+            if not isinstance(exc, OSError):
                 ctx.probe("fault_surfaced_as_" + type(exc).__name__)
             if os.path.exists(os.path.join(self.root, rel)):
                 self.model[rel] = ("dirty",)
             else:
                 self.model.pop(rel, None)
             return [rel]
+        if fired:
+            # the export reported success although an error had been injected into it (it may have retried, or the
+            # error hit after the data was safe): a success is a success - what it wrote must read back, as below
+            ctx.probe("export_acknowledged_despite_fault_%s_%s" % (label, fired[0]["kind"]))
         if exc is not None:
             ctx.fail("roundtrip", "export_raised_" + label, "export of %s to %r (overwrite=%r, existed=%r) raised %r" % (kind, rel, bool(op["ow"]), existed, exc))
             if os.path.exists(os.path.join(self.root, rel)):
